@@ -16,7 +16,7 @@
 //!    (term printing copied from bin/exec.rs).
 //!
 //! input : {"script","peers","init","services","ops","particle_id","oracles":["C06","C05"],
-//!          "probe": {"every": k, "special": bool, "max": n} | null, "stream_fold_sites": [..]}
+//!          "probe": {"every": k, "at": [steps], "special": bool, "max": n} | null, "stream_fold_sites": [..]}
 //!   ops : ["start"] | ["idle",p] | ["d",k] | ["dup",k] | ["re",k]
 //!       | ["r", p, mask, {"stale": n, "never": n, "cur": k|null, "sel": s}]
 //! output: {"script_term","coq":[ecase..],"classes":[..],"info":[..],"oracle_failures":[..],"runs","invocations","stats":{..}}
@@ -487,6 +487,7 @@ fn run_case(case: &J) -> J {
     let probe_every = case["probe"]["every"].as_u64().unwrap_or(0) as usize;
     let probe_special = case["probe"]["special"].as_bool().unwrap_or(false);
     let probe_max = case["probe"]["max"].as_u64().unwrap_or(u64::MAX) as usize;
+    let probe_at: Vec<u64> = case["probe"]["at"].as_array().map(|a| a.iter().filter_map(|x| x.as_u64()).collect()).unwrap_or_default();
     let probe_steps: Option<Vec<u64>> = case["probe_steps"].as_array().map(|a| a.iter().filter_map(|x| x.as_u64()).collect());
 
     let ast = match air_parser::parse(&script) {
@@ -617,7 +618,10 @@ fn run_case(case: &J) -> J {
         // ---- run -----------------------------------------------------------------------
         let input = net.make_input(p, cur, results);
         let out = run(&input);
+        let inflight_before = net.inflight.len();
         net.apply(p, &out);
+        // next_peer_pks comes out of a hash set: its order differs between processes; the schedule must not depend on it
+        net.inflight[inflight_before..].sort_by_key(|m| m.to);
         let rec = StepRecord { step: net.step, peer: p, input, out };
         net.step += 1;
         let o = &rec.out;
@@ -823,7 +827,7 @@ fn run_case(case: &J) -> J {
         }
         let special = !unknown.is_empty() || (rec.out.code != 0);
         // at most half of the probes go to the "special" runs (unknown ids / non-zero code), the rest is periodic
-        let periodic_here = probe_every > 0 && rec.step % probe_every == 0;
+        let periodic_here = (probe_every > 0 && rec.step % probe_every == 0) || probe_at.contains(&(rec.step as u64));
         let special_here = probe_special && special && special_probes < (probe_max + 1) / 2;
         let probe_here = match &probe_steps {
             Some(v) => v.contains(&(rec.step as u64)),
